@@ -407,6 +407,9 @@ def main(pid, fn, level="model_checking"):
     seed = int(os.environ.get("VERIF_SEED", "1") or "1")
     run = Run(pid, a.tier if a.tier in ("quick", "thorough") else "quick", seed, level)
     run.replay = a.replay
+    if not a.replay:
+        # replay files always belong to the run that printed them
+        shutil.rmtree(os.path.join(VERIF, "replays", pid), ignore_errors=True)
     try:
         fn(run)
         if a.replay:
